@@ -150,6 +150,16 @@ partial def rdManyNum (acc : List Num) : Rd (List Num) := do
     let s ← rdNum
     rdManyNum (s :: acc)
 
+/-- a stand-in for the fixed-key `DefaultHasher` on an element's own feed (the theorems quantify over
+every such function; the driver needs one that separates different feeds) -/
+def driverH0 (toks : List Tok) : Nat :=
+  toks.foldl (fun acc t =>
+    let v := match t with
+      | .str s => s.foldl (fun a c => (a * 1000003 + c.toNat + 1) % 18446744073709551557) 7
+      | .usize n => (n * 31 + 11) % 18446744073709551557
+      | .u64 n => (n * 37 + 13) % 18446744073709551557
+    (acc * 6364136223846793005 + v + 1442695040888963407) % 2 ^ 64) 14695981039346656037
+
 /-- every number handed to a printer must be what Rust prints for it -/
 def numsOf : Narsese → List Num
   | .term _ => []
@@ -215,6 +225,9 @@ def exec (op fmt payload : String) : Except String String := do
   | "eq" =>
     let (a, b) ← runRd (do let a ← rdTerm; let b ← rdTerm; pure (a, b)) payload
     pure s!"b {bit (sem a b)}"
+  | "hasheq" =>
+    let (a, b) ← runRd (do let a ← rdTerm; let b ← rdTerm; pure (a, b)) payload
+    pure s!"b {bit (decide (feed driverH0 a = feed driverH0 b))}"
   | "typst" =>
     let v ← runRd rdNarsese payload
     pure (typstOut v)
